@@ -998,6 +998,7 @@ uint64_t incl_budget(long sel) { return (sel == 0 || sel == 1 || sel >= 8) ? 300
 int run_incl(const ET& a, const ET& b, long sel, long via) {
 	Options o; VATA::InclParam ip; sel_options(sel, o, ip);
 	try {
+		if (via == 2) return ET::CheckInclusion(a, b) ? 1 : 0;                  // the two-argument overload (default parameters)
 		if (via == 0 && !ip.GetUseSimulation()) return ET::CheckInclusion(a, b, ip) ? 1 : 0;
 		Arguments args; args.options = o;
 		return ::CheckInclusion<ET>(a, b, args) ? 1 : 0;     // cli/operations.hh: sanitise, union, simulation, check
@@ -1007,7 +1008,8 @@ int run_incl(const ET& a, const ET& b, long sel, long via) {
 void op_incl(const Step& s) {
 	ETH& a = H(s, 0); ETH& b = H(s, 1); if (!same_alpha(a, b)) throw Skip();
 	long sel = mod(s.arg(2), N_SEL), via = (s.arg(3) & 1) | (sel < 10 ? (sel & 1) : 0);
-	const std::string site = std::string("et_incl:") + SEL_NAMES[sel] + (via ? ":cli" : ":api");
+	if (s.arg(3) == 2 && sel == 0) via = 2;
+	const std::string site = std::string("et_incl:") + SEL_NAMES[sel] + (via == 2 ? ":default-overload" : via ? ":cli" : ":api");
 	api_begin();
 	api_site(site, incl_budget_policy(sel), incl_budget(sel));
 	int v = run_incl(*a.aut, *b.aut, sel, via);
